@@ -40,7 +40,7 @@ def main():
     meta = {"property": prop, "id": sid, "ran": []}
     core._built = False
     core.build()
-    r0 = sh(f"sh {demo} {core.DELTA}")
+    r0 = sh(f"bash {demo} {core.DELTA}")
     meta["demo_on_unchanged_tree"] = r0.returncode
     a = sh(f"git -C {MUTREPO} apply {patch}")
     if a.returncode != 0:
@@ -51,7 +51,7 @@ def main():
     try:
         core._built = False
         core.build()
-        r1 = sh(f"sh {demo} {core.DELTA}")
+        r1 = sh(f"bash {demo} {core.DELTA}")
         meta["demo_with_change"] = r1.returncode
         meta["results"] = {}
         for c in checks:
